@@ -6,7 +6,7 @@
    action interleaves).  `last` remembers the completed action with the world it started from, so the laws of C23 are
    invariants (LawsHold), as is the design's InStep; Composite ties the phase-wise run to BoundBranch!Do. *)
 EXTENDS BoundBranch, TLC
-CONSTANTS MaxRev, Cs
+CONSTANTS MaxRev, Cs, Unbindable          \* Unbindable \subseteq Cs: the checkouts that are ever unbound / re-bound
 VARIABLES W, pc, last
 vars == <<W, pc, last>>
 Idle == [ph |-> "idle", c |-> "", before |-> <<>>]
@@ -17,7 +17,8 @@ W0 == [P |-> <<<<>>>>, tip |-> [b \in Branches |-> 1], bound |-> [c \in Cs |-> T
 Init == W = W0 /\ pc = Idle /\ last = None
 
 SimpleActs == {Act("commitM", "M", "", "")}
-              \cup {Act(op, c, "", "") : op \in {"commitLocal", "commitUnbound", "update", "bind", "unbind"}, c \in Cs}
+              \cup {Act(op, c, "", "") : op \in {"commitLocal", "update"}, c \in Cs}
+              \cup {Act(op, c, "", "") : op \in {"commitUnbound", "bind", "unbind"}, c \in Unbindable}
               \cup {Act("pull", c, s, "") : c \in Cs, s \in Branches}
 Creates(a) == a.op \in {"commitM", "commitLocal", "commitUnbound"}
 Simple(a) == /\ pc = Idle /\ a.c # a.src /\ Possible(W, a) /\ (Creates(a) => Len(W.P) < MaxRev)
